@@ -25,7 +25,8 @@ Kernels: a whitelisted set of straight-line integer functions is translated from
          Anything outside the subset makes the translator emit `(* UNTRANSLATED name: reason *)` and record
          the name in <out-dir>/untranslated.txt; the caller falls back to the correspondence tie.
 """
-import re, sys, pathlib, json
+import re, sys, pathlib, json, os
+sys.path.insert(0, os.path.dirname(os.path.abspath(__file__)))
 
 # ------------------------------------------------------------------------------------------------
 # shared helpers
@@ -1191,6 +1192,24 @@ def gen_kernels(srcdir, allconsts):
             out.append('(* UNTRANSLATED %s: parse failure *)\n' % gname)
             continue
         out.append('(* %s :: %s, block containing occurrence %d of `%s` *)\n%s' % (fname, fn, occ, marker, text))
+        translated.append(gname)
+    # imperative array kernels (tools/rs2v_imp.py)
+    import rs2v_imp
+    imp_kernels_by_file = {}
+    for kd in rs2v_imp.IMP_KERNELS:
+        fname, gname = kd['file'], kd['gname']
+        path = pathlib.Path(srcdir) / fname
+        fns = fns_by_file.setdefault(fname, {})
+        kernels = imp_kernels_by_file.setdefault(fname, {})
+        try:
+            src = strip_comments(path.read_text())
+            ctx = Ctx(fns, dict(allconsts.get(path.stem, {})))
+            text = rs2v_imp.translate_imp(src, kd, ctx, kernels)
+        except Exception as ex:      # includes rs2v_imp's own Untranslatable (a different class object when run as __main__)
+            untranslated.append((gname, '%s: %s' % (type(ex).__name__, ex)))
+            out.append('(* UNTRANSLATED %s: %s: %s *)\n' % (gname, type(ex).__name__, str(ex).replace('*)', '* )')))
+            continue
+        out.append('(* %s :: %s (imperative kernel: array cells as parameters, final cells as result) *)\n%s' % (fname, kd['fn'], text))
         translated.append(gname)
     return '\n'.join(out), translated, untranslated
 
